@@ -83,9 +83,9 @@ type Scenario struct {
 
 	Tasks []Task `json:"tasks,omitempty"`
 	// Explicit schedule. When nil, switches are drawn from the sched stream with
-	// probability SwitchPermille/1000 at each yield and recorded.
-	Sched          []Switch `json:"sched,omitempty"`
-	SwitchPermille int      `json:"switch_permille,omitempty"`
+	// probability SwitchPPM/1e6 at each yield (at most 30000 per run) and recorded.
+	Sched     []Switch `json:"sched,omitempty"`
+	SwitchPPM int      `json:"switch_ppm,omitempty"`
 }
 
 func (s *Scenario) C(key string) int64 { return s.Cfg[key] }
@@ -111,7 +111,7 @@ func (s *Scenario) Hash() uint64 {
 		h = HashU64(h, sw.At)
 		h = HashU64(h, uint64(sw.To))
 	}
-	h = HashU64(h, uint64(s.SwitchPermille))
+	h = HashU64(h, uint64(s.SwitchPPM))
 	return h
 }
 
